@@ -10,7 +10,8 @@ use std::sync::atomic::{AtomicU64, Ordering};
 use std::sync::Mutex;
 use std::time::{Duration, Instant};
 
-const CASE_TIMEOUT: Duration = Duration::from_secs(20);
+/// Per-case time limit; `CLI_DRIVER_TIMEOUT_SECS` overrides it (for triage of slow inputs).
+const DEFAULT_CASE_TIMEOUT_SECS: u64 = 20;
 
 /// Milliseconds (since program start) at which the running case started; 0 = idle.
 static CASE_STARTED_MS: AtomicU64 = AtomicU64::new(0);
@@ -99,6 +100,12 @@ fn main() {
     };
     fs::create_dir_all(&scratch).expect("creating scratch dir");
     let program_start = Instant::now();
+    let case_timeout = Duration::from_secs(
+        std::env::var("CLI_DRIVER_TIMEOUT_SECS")
+            .ok()
+            .and_then(|s| s.parse::<u64>().ok())
+            .unwrap_or(DEFAULT_CASE_TIMEOUT_SECS),
+    );
 
     // Silence the default hook; remember message and location for the PANIC line.
     panic::set_hook(Box::new(|info| {
@@ -122,7 +129,7 @@ fn main() {
         }
     }));
 
-    // Watchdog: a case that runs longer than CASE_TIMEOUT is reported as HANG and the process
+    // Watchdog: a case that runs longer than the time limit is reported as HANG and the process
     // is aborted (a hung thread cannot be cancelled); the caller restarts after that case.
     std::thread::spawn(move || loop {
         std::thread::sleep(Duration::from_millis(200));
@@ -131,7 +138,7 @@ fn main() {
             continue;
         }
         let now = program_start.elapsed().as_millis() as u64;
-        if now.saturating_sub(started) > CASE_TIMEOUT.as_millis() as u64 {
+        if now.saturating_sub(started) > case_timeout.as_millis() as u64 {
             emit("HANG");
             std::process::exit(3);
         }
